@@ -598,3 +598,65 @@ Proof.
   pose proof (min_successes om vals merged ltac:(lia)) as H. cbv zeta in H. destruct H as (_ & _ & H & _).
   rewrite H, Hm. lia.
 Qed.
+
+(* ------------------------------------------------------------------ the frontier sorted along the first metric
+   (_find_sorted_pareto_frontier_values_minimization): exactly the non-dominated rows under minimisation, every copy of
+   a tied row kept, in non-decreasing order of the first metric *)
+From Coq Require Import Permutation Sorted.
+
+Definition le0 (a b : row) : Prop := nth 0 a 0 <= nth 0 b 0.
+
+Lemma insert_row_perm x l : Permutation (insert_row x l) (x :: l).
+Proof.
+  induction l as [|y l IH]; simpl; [apply Permutation_refl|].
+  destruct (Qle_bool _ _); [apply Permutation_refl|].
+  eapply perm_trans; [apply perm_skip; exact IH|apply perm_swap].
+Qed.
+
+Lemma sort_rows_perm l : Permutation (sort_rows l) l.
+Proof.
+  induction l as [|x l IH]; simpl; [constructor|].
+  eapply perm_trans; [apply insert_row_perm|apply perm_skip; exact IH].
+Qed.
+
+Lemma insert_row_sorted x l : Sorted le0 l -> Sorted le0 (insert_row x l).
+Proof.
+  induction l as [|y l IH]; intros H; simpl.
+  - constructor; constructor.
+  - destruct (Qle_bool (nth 0 x 0) (nth 0 y 0)) eqn:E.
+    + constructor; [exact H|constructor; apply Qle_bool_iff; exact E].
+    + assert (Hlt : nth 0 y 0 < nth 0 x 0) by (apply Qltb_lt; unfold Qltb; rewrite E; reflexivity).
+      inversion H as [|y' l' Hs Hh]; subst. constructor; [apply IH; exact Hs|].
+      destruct l as [|z l]; simpl.
+      * constructor. unfold le0. lra.
+      * destruct (Qle_bool (nth 0 x 0) (nth 0 z 0)); constructor; [unfold le0; lra|inversion Hh; assumption].
+Qed.
+
+Lemma sort_rows_sorted l : StronglySorted le0 (sort_rows l).
+Proof.
+  apply Sorted_StronglySorted; [intros a b c; unfold le0; intros; lra|].
+  induction l as [|x l IH]; simpl; [constructor|apply insert_row_sorted; exact IH].
+Qed.
+
+Theorem sorted_frontier_exact (vals : list row) (width : nat) :
+  (forall r, In r vals -> length r = width) ->
+  let nv := neg_rows vals in
+  Permutation (sorted_pareto_min vals)
+              (map (fun j => nth j vals []) (filter (nondominated_b nv) (seq 0 (length vals)))) /\
+  StronglySorted le0 (sorted_pareto_min vals) /\
+  forall j, (j < length vals)%nat ->
+    (nondominated_b nv j = true <->
+     ~ exists k, (k < length vals)%nat /\ Dominates (nth k nv []) (nth j nv [])).
+Proof.
+  intros rect nv.
+  assert (rect' : forall r, In r nv -> length r = width).
+  { intros r Hr. unfold nv, neg_rows in Hr. apply in_map_iff in Hr. destruct Hr as (r0 & <- & Hin).
+    rewrite map_length. apply rect. exact Hin. }
+  assert (Hlen : length vals = length nv) by (unfold nv, neg_rows; rewrite map_length; reflexivity).
+  destruct (@pareto_partition_exact row nv width vals [] rect' Hlen) as [Hsplit Hnd]. cbv zeta in Hsplit.
+  unfold pareto_split in Hsplit. injection Hsplit as H1 _.
+  split; [|split].
+  - unfold sorted_pareto_min. fold nv. rewrite H1, <- Hlen. apply sort_rows_perm.
+  - apply sort_rows_sorted.
+  - intros j Hj. rewrite Hlen in Hj. rewrite Hlen. apply Hnd. exact Hj.
+Qed.
